@@ -220,3 +220,33 @@ def canonicalise(tree, expected):
                     x.arg = mapping[x.arg]
         applied.append((key, mapping))
     return applied
+
+
+# ---------------------------------------------------------------------------------------------------------------------
+# statements without effect on values
+# ---------------------------------------------------------------------------------------------------------------------
+NOISE_CALLS = ("print", "warnings.warn", "warn", "logging.debug", "logging.info", "logging.warning", "logger.debug", "logger.info", "logger.warning", "log.debug", "log.info")
+
+
+def is_noise(st):
+    """`pass`, `assert ...` (the code after it runs only when it holds; nothing is bound) and print / logging calls"""
+    if isinstance(st, (ast.Pass, ast.Assert)):
+        return True
+    return isinstance(st, ast.Expr) and isinstance(st.value, ast.Call) and ast.unparse(st.value.func) in NOISE_CALLS
+
+
+def strip_noise(tree):
+    """remove statements that cannot change any value the rules talk about (in place); returns how many were removed"""
+    n = 0
+    for node in ast.walk(tree):
+        for field in ("body", "orelse", "finalbody"):
+            body = getattr(node, field, None)
+            if isinstance(body, list) and body and all(isinstance(s, ast.stmt) for s in body):
+                kept = [s for s in body if not is_noise(s)]
+                if len(kept) != len(body):
+                    n += len(body) - len(kept)
+                    if not kept and field == "body":
+                        kept = [s for s in body if isinstance(s, ast.Pass)][:1] or [ast.copy_location(ast.Pass(), body[0])]
+                        n -= 1
+                    setattr(node, field, kept)
+    return n
